@@ -45,6 +45,12 @@ func (lr *TypeWriterReadWriteCloser) Write(p []byte) (n int, err error) {
 }
 
 func (lr *TypeWriterReadWriteCloser) Read(p []byte) (n int, err error) {
+	if len(p) == 0 {
+		// the line editor's input buffer is full of a key sequence it cannot
+		// decode: a read of nothing succeeds at once and it would ask again forever
+		return 0, io.ErrShortBuffer
+	}
+
 	n, err = lr.ReadWriteCloser.Read(p)
 
 	now := time.Now()
